@@ -634,6 +634,7 @@ func (p *Proxy) connect(req *http.Request) (*http.Response, net.Conn, error) {
 
 		res, err := http.ReadResponse(pbr, req)
 		if err != nil {
+			conn.Close()
 			return nil, nil, err
 		}
 
